@@ -221,7 +221,7 @@ var dims = [nDims]dim{
 	dID:     {"jsonrpc_id", []string{"1", `"x"`, "absent", "2"}, true},
 	dBlock:  {"requested_block", []string{"100", "101", "4294967396", "0"}, false},
 	dSalt:   {"salt", []string{"nil", "0102"}, true},
-	dMeta:   {"metadata", []string{"none", "a=b", "a=c"}, false},
+	dMeta:   {"metadata", []string{"none", "a=b", "a=c", "traceparent=t1;x=1", "traceparent=t2;x=1"}, false},
 	dAddon:  {"addon", []string{"", "debug"}, false},
 	dExt:    {"extensions", []string{"none", "archive"}, false},
 	dSeen:   {"seen_block", []string{"0", "99"}, true},
@@ -330,6 +330,10 @@ func buildReq(d [nDims]int) (*pairingtypes.RelayPrivateData, string) {
 		r.Metadata = []pairingtypes.Metadata{{Name: "a", Value: "b"}}
 	case 2:
 		r.Metadata = []pairingtypes.Metadata{{Name: "a", Value: "c"}}
+	case 3: // a well-known per-request header in front of another one
+		r.Metadata = []pairingtypes.Metadata{{Name: "traceparent", Value: "t1"}, {Name: "x", Value: "1"}}
+	case 4:
+		r.Metadata = []pairingtypes.Metadata{{Name: "traceparent", Value: "t2"}, {Name: "x", Value: "1"}}
 	}
 	if d[dExt] == 1 {
 		r.Extensions = []string{"archive"}
